@@ -10,6 +10,7 @@ negates the field (both from the Biot–Savart integral representation, Lemmas/S
    oracle checks them on the real code. -/
 -/
 import MagpyVerif.Lemmas.KernCylSeg
+import MagpyVerif.Lemmas.KernCylSegScale
 import MagpyVerif.Lemmas.KernReal
 import MagpyVerif.Lemmas.KernelLiterals
 import MagpyVerif.Lemmas.KernAlgebra
@@ -171,5 +172,53 @@ then jumps by 0 or 2, and both values come from the `phi_red / 2` branch) -/
 theorem arctan_k_tan_2_periodic_continuation (μ : ℝ) (S : SegSpecial) (k φ : ℝ) :
     @arctan_k_tan_2 ℝ (realNumX μ S) k (φ + 2 * Real.pi) = @arctan_k_tan_2 ℝ (realNumX μ S) k φ + Real.pi :=
   arctan_k_tan_2_add_two_pi μ S k φ
+
+end MagpyVerif.C13
+
+/-! ### CylinderSegment: the range written one turn further; periodic continuation inside the case functions -/
+namespace MagpyVerif.C13
+open MagpyVerif MagpyVerif.Kern MagpyVerif.Kern.CylSeg
+
+/- FULL: `bhjmCylSeg f x r1 r2 h (p1 + 360) (p2 + 360) pol = bhjmCylSeg f x r1 r2 h p1 p2 pol` for all ranges.  Not shown for
+ranges that end at `p2 ≤ 0` (e.g. [−90°, −30°] against [270°, 330°]) or that are longer than a turn and start below −360°:
+there the prologue keeps two different representatives (they differ by 2π), and equality of the fields would need the
+quasi-periodicity of the incomplete elliptic integrals in their amplitude (`cylseg_full_turn_acts_on_amplitudes` shows that this
+is the only place a full turn enters), which the opaque special functions do not provide; left to the whole-vs-parts and
+angle-turns oracle. -/
+/-- C13 (CylinderSegment): a range that ends at a positive angle and either reaches beyond 360° or starts at −360° or later
+gives literally the same normalised row when both section angles are written 360° further (`turns` of the prologue goes up by
+exactly one), hence the same B, H, J, M at every observer -/
+theorem cylseg_angles_plus_360_partial (μ : ℝ) (S : SegSpecial) (f : Field) (x : V3 ℝ) (r1 r2 h p1 p2 : ℝ) (pol : V3 ℝ)
+    (hp2 : 0 < p2) (hcase : 360 < p2 ∨ -360 ≤ p1) :
+    @bhjmCylSeg ℝ (realNumX μ S) f x r1 r2 h (p1 + 360) (p2 + 360) pol =
+      @bhjmCylSeg ℝ (realNumX μ S) f x r1 r2 h p1 p2 pol :=
+  bhjmCylSeg_add_360 μ S f x r1 r2 h p1 p2 pol hp2 hcase
+
+-- non-vacuity: [30°, 120°] against [390°, 480°]
+example (μ : ℝ) (S : SegSpecial) (pol : V3 ℝ) :
+    @bhjmCylSeg ℝ (realNumX μ S) .B ⟨3, 4, 5⟩ 1 2 3 (30 + 360) (120 + 360) pol =
+      @bhjmCylSeg ℝ (realNumX μ S) .B ⟨3, 4, 5⟩ 1 2 3 30 120 pol :=
+  cylseg_angles_plus_360_partial μ S .B _ 1 2 3 30 120 pol (by norm_num) (Or.inr (by norm_num))
+
+/-- `arctan_k_tan_2_periodic_continuation` inside the case functions, explicit part: the two functions that use
+`arctan_k_tan_2 k (2·phi_bar_j)` outside a special function gain `π cos θ_M sign(z_bar_k)` per half turn of the azimuthal
+difference, and `Hr_zk_case233` (one such term with coefficient −c, two terms `arctan_k_tan_2 k± phi_bar_j` with +c) is
+exactly 2π-periodic -/
+theorem cylseg_arctan_continuation_explicit (μ : ℝ) (S : SegSpecial) (r pbj θ zb : ℝ) :
+    @Hz_zk_case223 ℝ (realNumX μ S) r (pbj + Real.pi) θ zb =
+      @Hz_zk_case223 ℝ (realNumX μ S) r pbj θ zb + Real.cos θ * sgnR zb * Real.pi ∧
+    @Hz_zk_case233 ℝ (realNumX μ S) r (pbj + Real.pi) θ zb =
+      @Hz_zk_case233 ℝ (realNumX μ S) r pbj θ zb + Real.cos θ * sgnR zb * Real.pi ∧
+    @Hr_zk_case233 ℝ (realNumX μ S) r (pbj + 2 * Real.pi) θ zb = @Hr_zk_case233 ℝ (realNumX μ S) r pbj θ zb :=
+  ⟨Hz_zk_case223_add_pi μ S r pbj θ zb, Hz_zk_case233_add_pi μ S r pbj θ zb, Hr_zk_case233_add_two_pi μ S r pbj θ zb⟩
+
+/-- … and inside the incomplete integrals: in `Hr_zk_case234` and `Hr_zk_case235` a full turn of `phi_bar_j` is the same as
+shifting the amplitude argument of `ellipkinc`, `ellipeinc`, `el3_angle` by π (`S.shiftPi`): `phi_bar_j / 2` and
+`arctan_k_tan_2 k phi_bar_j` both gain exactly π, everything else is `sin` / `cos` of `phi_bar_j` -/
+theorem cylseg_full_turn_acts_on_amplitudes (μ : ℝ) (S : SegSpecial) (r ri rb pbj θ zb : ℝ) :
+    @Hr_zk_case234 ℝ (realNumX μ S) r (pbj + 2 * Real.pi) θ zb = @Hr_zk_case234 ℝ (realNumX μ S.shiftPi) r pbj θ zb ∧
+    @Hr_zk_case235 ℝ (realNumX μ S) r ri rb (pbj + 2 * Real.pi) θ zb =
+      @Hr_zk_case235 ℝ (realNumX μ S.shiftPi) r ri rb pbj θ zb :=
+  ⟨Hr_zk_case234_add_two_pi μ S r pbj θ zb, Hr_zk_case235_add_two_pi μ S r ri rb pbj θ zb⟩
 
 end MagpyVerif.C13
